@@ -7,6 +7,7 @@ import CobaldVerif.Drive.C14
 import CobaldVerif.Drive.C15
 import CobaldVerif.Drive.C16
 import CobaldVerif.Drive.C17
+import CobaldVerif.Drive.C18
 import CobaldVerif.Drive.C19
 
 namespace Cobald.Drive
@@ -23,6 +24,7 @@ def dispatch (prop : String) (j : Json) : Except String Json :=
   | "C15" => C15.handle j
   | "C16" => C16.handle j
   | "C17" => C17.handle j
+  | "C18" => C18.handle j
   | "C19" => C19.handle j
   | p => throw s!"unknown property {p}"
 
